@@ -154,6 +154,7 @@ func (r writeRec) key() string {
 }
 
 type State struct {
+	heads  map[*loopInfo]*State // snapshot at the head of each loop being executed (for `prev` in step clauses)
 	binds  map[string]Val // results of calls named by bind clauses of the function under verification
 	heap   map[int]Val
 	pc     []*Term
@@ -194,6 +195,12 @@ func (f *Frame) clone() *Frame {
 
 func (s *State) clone() *State {
 	n := &State{heap: make(map[int]Val, len(s.heap)), writes: make(map[string]writeRec, len(s.writes)), ghost: make(map[string]Val, len(s.ghost))}
+	if len(s.heads) > 0 {
+		n.heads = make(map[*loopInfo]*State, len(s.heads))
+		for k, h := range s.heads {
+			n.heads[k] = h
+		}
+	}
 	if len(s.binds) > 0 {
 		n.binds = make(map[string]Val, len(s.binds))
 		for k, v := range s.binds {
